@@ -3,7 +3,7 @@
    whitening inverses, geometries, shank vectors, neighbourhood sizes, thresholds and requests: no size bound.
    Templates are lists of columns; the threshold fraction is p/q (Model.v). *)
 From Coq Require Import ZArith List Bool Arith Permutation.
-From PV Require Import Base.NpSort C05.Model C05.Spec C05.Proofs C05.Proofs2 C05.Proofs3 C05.Proofs4 C05.Proofs5 C05.Proofs6 C05.Proofs7 C05.Proofs8.
+From PV Require Import Base.NpSort C05.Model C05.Spec C05.Proofs C05.Proofs2 C05.Proofs3 C05.Proofs4 C05.Proofs5 C05.Proofs6 C05.Proofs7 C05.Proofs8 C05.Proofs9.
 Import ListNotations.
 Open Scope Z_scope.
 
@@ -395,6 +395,22 @@ Proof.
   - unfold get_template_dense. now rewrite ET.
 Qed.
 Print Assumptions C05_dense_threshold_exit.
+
+(* dense, loaded-state shapes: get_template returns a record iff the peak amplitude reaches the threshold fraction of
+   itself (always for a fraction in [0, 1]: C05_dense_defined; never above 1 on a template with signal:
+   C05_dense_threshold_exit) and every explicit id is a channel; otherwise phylib raises *)
+Theorem C05_dense_defined_iff : forall argsort, Argsort_ok argsort -> forall d r cols,
+  d_cols d = None -> nth_error (d_templates d) (r_tid r) = Some cols ->
+  length cols = length (d_pos d) -> length (d_wmi d) = length (d_pos d) -> length (d_shanks d) = length (d_pos d) ->
+  NoDup (d_pos d) -> (0 < length (d_pos d))%nat -> 0 <= d_nclosest d ->
+  ((exists rec, get_template argsort d r = Some rec) <->
+   (forall T b, Full_template d r T -> Peak T b ->
+                tp (req_thr d r) * amp_of T b <= tq (req_thr d r) * amp_of T b) /\
+   match r_chans r with Some l => Forall (fun c => 0 <= c < Z.of_nat (length (d_pos d))) l | None => True end).
+Proof.
+  intros argsort AS d r cols Hc. unfold get_template. rewrite Hc. now apply dense_defined_iff.
+Qed.
+Print Assumptions C05_dense_defined_iff.
 
 (* sparse: get_template returns iff the row matches the stored columns, the kept entries are channels and at least
    one column is kept (C05_sparse_defined is the <- direction) *)
